@@ -1,4 +1,5 @@
 """Run the real APTMirror.run() in-process against a simulated upstream."""
+import asyncio
 import os
 import sys
 from pathlib import Path
@@ -123,6 +124,8 @@ class StoreHandler:
             return Resp("error")
         if fault == "reconnect":
             return Resp("retry")
+        if fault == "cancel":
+            return Resp("cancel")   # the transport's own cancellation leaks out of stream(): the transfer task ends cancelled
         if obj is None and self.catch_all and ("/../" in url or url.endswith("/..")):
             obj = (b"served-to-a-traversal-request", 1230768000)
             self.catch_all_served = getattr(self, "catch_all_served", 0) + 1
@@ -207,6 +210,9 @@ def run_mirror(sb, handler, chooser=None, on_fs_event=None, budget=20000, trace_
             res.exit = None
             res.exception = ex
         except Exception as ex:  # escaped exception = the process would die with a traceback (exit 1)
+            res.exit = "exception"
+            res.exception = ex
+        except asyncio.CancelledError as ex:   # a cancellation that tore the whole run down (BaseException)
             res.exit = "exception"
             res.exception = ex
     res.vtime = loop._vt if loop else None
